@@ -224,7 +224,7 @@ def tie_audit(tie, res, rest_ok):
         res['translator'] = {'definitions': len(translate.SPEC), 'errors': errors}
         b = subprocess.run(['lake', 'build', 'Sgz.Generated.Source', 'Sgz.Model.Loader', 'Sgz.Model.Reader', 'Sgz.Model.Crop',
                             'Sgz.Model.Reblock', 'Sgz.Model.Writer', 'Sgz.Model.Window', 'Sgz.Model.Derived', 'Sgz.Model.Header', 'Sgz.Model.Container',
-                            'Sgz.Model.HeaderReads', 'Sgz.Model.Version', 'Sgz.Model.Emul'], cwd=LEAN_DIR,
+                            'Sgz.Model.HeaderReads', 'Sgz.Model.Version', 'Sgz.Model.Emul', 'Sgz.Model.Irregular', 'Sgz.Model.Xarray'], cwd=LEAN_DIR,
                            stdout=subprocess.PIPE, stderr=subprocess.STDOUT, text=True, timeout=1800)
         src = open(os.path.join(LEAN_DIR, 'Sgz', 'Tie', 'Source.lean')).read()
         src += '\n' + ''.join(f'#print axioms {t}\n' for t in tie)
